@@ -2018,6 +2018,12 @@ impl Server {
         }
         
         if let Some(rdb_engine) = &self.rdb_engine {
+            // A background save that started earlier knows less than this one would, but it
+            // finishes later and its dump would replace the newer one: like Redis, SAVE is
+            // refused until the background save has ended
+            if rdb_engine.is_bgsave_in_progress() {
+                return Ok(RespFrame::error("ERR Background save already in progress"));
+            }
             match rdb_engine.save(&self.storage) {
                 Ok(_) => {
                     if let Some(monitor) = &self.storage_monitor {
